@@ -41,7 +41,7 @@ type hkSpec struct {
 
 func (h hkSpec) coq() string {
 	switch h.K {
-	case "accept":
+	case "accept", "donectx":
 		return "KAccept"
 	case "rejc":
 		return "(KRejC " + cB([]byte(h.Msg)) + ")"
@@ -108,6 +108,11 @@ func (h *instrHook) act(ctx context.Context, bump func(time.Duration)) (context.
 		bump(time.Duration(h.spec.D) * time.Second)
 	case "tag":
 		return context.WithValue(ctx, tagKey{h.spec.D}, h.spec.D), nil
+	case "donectx":
+		// accepts, and hands on a derived context that is already done: `ctx, cancel := context.WithTimeout(ctx, d); defer cancel()`
+		c, cancel := context.WithCancel(ctx)
+		cancel()
+		return c, nil
 	}
 	return ctx, nil
 }
@@ -246,6 +251,7 @@ func (l *syncLogic) wait() bool {
 
 var c12IH = bittorrent.InfoHashFromBytes([]byte("c12-infohash-0123456"))
 var c12IH2 = bittorrent.InfoHashFromBytes([]byte("c12-prelude-ih-65432"))
+var c12IH3 = bittorrent.InfoHashFromBytes([]byte("c12-warmup-ih-098765"))
 
 const c12Key = "c12-private-key"
 const c12Now = int64(1_700_000_000_000_000_000)
@@ -264,6 +270,13 @@ func c12RunO(o *Out, kind string, via int, scrape bool, pre, post []hkSpec, base
 // member of the swarm (member 1: seeder, 2: leecher).  Only used with chains whose pre-hooks REJECT: whatever the request
 // asks for - leaving included - a rejected request must not touch the store.
 func c12RunV(o *Out, kind string, via int, scrape bool, pre, post []hkSpec, baseSec int64, overlap bool, ev, member int) {
+	c12RunW(o, kind, via, scrape, pre, post, baseSec, overlap, ev, member, 0)
+}
+
+// c12RunW: the measured request is not the first one - the same Logic instance has handled `warm` requests just like it
+// before (announces and scrapes alternating, from other peers).  What a hook chain decides for a request does not depend on
+// how many requests it has decided before, or how.
+func c12RunW(o *Out, kind string, via int, scrape bool, pre, post []hkSpec, baseSec int64, overlap bool, ev, member, warm int) {
 	rejecting := false
 	for _, h := range pre {
 		rejecting = rejecting || h.K == "rejc" || h.K == "reji"
@@ -315,6 +328,24 @@ func c12RunV(o *Out, kind string, via int, scrape bool, pre, post []hkSpec, base
 		_ = real.PutSeeder(c12IH, me)
 	case 2:
 		_ = real.PutLeecher(c12IH, me)
+	}
+	if warm > 0 {
+		lg.mute(true)
+		for i := 0; i < warm; i++ {
+			wp := bittorrent.Peer{ID: bittorrent.PeerIDFromBytes([]byte(fmt.Sprintf("warmup-%013d", i))), Port: uint16(2000 + i%60000), IP: bittorrent.IP{IP: net.IP{10, 3, byte(i >> 8), byte(i)}, AddressFamily: bittorrent.IPv4}}
+			if i%2 == 0 {
+				req := &bittorrent.AnnounceRequest{InfoHash: c12IH3, Peer: wp, Left: 1, NumWant: 5, NumWantProvided: true}
+				if ctx, resp, err := logic.Logic.HandleAnnounce(context.Background(), req); err == nil {
+					logic.Logic.AfterAnnounce(ctx, req, resp)
+				}
+			} else {
+				req := &bittorrent.ScrapeRequest{InfoHashes: []bittorrent.InfoHash{c12IH3}, AddressFamily: bittorrent.IPv4}
+				if ctx, resp, err := logic.Logic.HandleScrape(context.Background(), req); err == nil {
+					logic.Logic.AfterScrape(ctx, req, resp)
+				}
+			}
+		}
+		lg.mute(false)
 	}
 	before := countIH()
 
@@ -509,7 +540,7 @@ func c12RunV(o *Out, kind string, via int, scrape bool, pre, post []hkSpec, base
 	coq := fmt.Sprintf("CChain %d %s %s %s %d %d %s %s %s %s %s %s", via, cBool(scrape), cList(cp), cList(cq), baseSec,
 		oErr, cB([]byte(oMsg)), cList(tr), cZ(oInterval), cBool(oFilled), cZ(applied), cBool(oDisclosed))
 	o.add(Case{Coq: coq, Kind: kind,
-		In:  map[string]interface{}{"via": via, "scrape": scrape, "pre": pre, "post": post, "base": baseSec, "overlap": overlap, "ev": ev, "member": member},
+		In:  map[string]interface{}{"via": via, "scrape": scrape, "pre": pre, "post": post, "base": baseSec, "overlap": overlap, "ev": ev, "member": member, "warm": warm},
 		Obs: map[string]interface{}{"err": oErr, "msg": oMsg, "trace": evs, "interval": oInterval, "filled": oFilled, "applied": applied, "disclosed": oDisclosed}})
 }
 
@@ -525,7 +556,7 @@ func c12Replay(o *Out, in map[string]interface{}) error {
 	if err := reJSON(in["post"], &post); err != nil {
 		return err
 	}
-	c12RunV(o, "replay", int(jInt(in["via"])), jBool(in["scrape"]), pre, post, jInt(in["base"]), jBool(in["overlap"]), int(jInt(in["ev"])), int(jInt(in["member"])))
+	c12RunW(o, "replay", int(jInt(in["via"])), jBool(in["scrape"]), pre, post, jInt(in["base"]), jBool(in["overlap"]), int(jInt(in["ev"])), int(jInt(in["member"])), int(jInt(in["warm"])))
 	return nil
 }
 
@@ -535,7 +566,7 @@ func c12Stream(o *Out, rng *rand.Rand, n int) {
 		var hs []hkSpec
 		for i := rng.Intn(maxLen + 1); i > 0; i-- {
 			switch r := rng.Intn(12 + rejectBias); {
-			case r < 5:
+			case r < 4:
 				hs = append(hs, hkSpec{K: "accept"})
 			case r == 5:
 				hs = append(hs, hkSpec{K: "skipswarm"})
@@ -545,6 +576,8 @@ func c12Stream(o *Out, rng *rand.Rand, n int) {
 				hs = append(hs, hkSpec{K: "bump", D: int64(rng.Intn(100) + 1)})
 			case r == 8:
 				hs = append(hs, hkSpec{K: "tag", D: int64(rng.Intn(5))})
+			case r == 4:
+				hs = append(hs, hkSpec{K: "donectx"})
 			case r == 9 || r == 12:
 				hs = append(hs, hkSpec{K: "rejc", Msg: msgs[rng.Intn(len(msgs))], NilCtx: rng.Intn(2) == 0})
 			case r == 10 || r == 13:
@@ -567,6 +600,9 @@ func c12Stream(o *Out, rng *rand.Rand, n int) {
 		{{{K: "skipswarm"}}, {{K: "accept"}}},
 		{{{K: "skipresp"}}, nil},
 		{nil, {{K: "skipswarm"}}},
+		{{{K: "donectx"}}, nil},
+		{{{K: "accept"}}, {{K: "donectx"}, {K: "accept"}}},
+		{{{K: "donectx"}, {K: "rejc", Msg: "go away"}}, nil},
 	}
 	for via := 0; via < 3; via++ {
 		for _, sc := range []bool{false, true} {
@@ -606,6 +642,14 @@ func c12Stream(o *Out, rng *rand.Rand, n int) {
 			}
 			c12RunV(o, "long-chain", via, false, pre, post, 1800, false, 2, 1)
 			c12Run(o, "long-chain", via, true, pre, post, 1800)
+		}
+	}
+	// the N-th request of a long run: the fixed chains again after 40, 100 and 300 earlier requests on the same Logic
+	for via := 0; via < 3; via++ {
+		for fi, f := range fixed {
+			warm := []int{40, 100, 300}[(fi+via)%3]
+			c12RunW(o, "after-many", via, false, f[0], f[1], 1800, false, 0, 0, warm)
+			c12RunW(o, "after-many", via, true, f[0], f[1], 1800, false, 0, 0, warm)
 		}
 	}
 	// many post-response runs outstanding at once
